@@ -297,6 +297,17 @@ def check_agg(case, ctx):
                       f'aggregate changed its inputs: {before} -> {after}')
     if len(items) > 1:
         ctx.nontrivial(('agg', case['items']), 'aggregate-of-several')
+        # hierarchical aggregation (lines -> pages -> document): aggregating aggregates is still plain addition
+        for k in range(1, len(items)):
+            nested = ErrorsSummary.aggregate([ErrorsSummary.aggregate(items[:k]), ErrorsSummary.aggregate(items[k:])])
+            ctx.executed(3)
+            gn = summary_fields(nested)
+            gn['conf'] = [(kk, [tuple(x) for x in c]) for kk, c in gn['conf']]
+            if gn != want:
+                bad = [kk for kk in want if gn[kk] != want[kk]]
+                ctx.violation('aggregation-is-plain-addition', f'{ID}/aggregate-of-aggregates/{"+".join(bad)}',
+                              f'aggregate([aggregate(first {k}), aggregate(rest)]) over {case["items"]}: got {gn}, field-wise sum {want}')
+                break
     if want['ref_len'] > 0 and abs(agg.error_rate - want['errors'] / want['ref_len']) > 1e-12:
         ctx.violation('aggregation-is-plain-addition', f'{ID}/aggregate/error-rate', f'{agg.error_rate}')
 
